@@ -3,6 +3,7 @@ import re
 from lib.facts import CallGraph, find, is_node, path_of, fns_in_type, render, last_seg, walk
 from lib.mirview import View, callee
 from lib.provenance import Prov, param_names
+from lib.mirq import result_exits
 from lib.synflow_c02 import SEQ_VIEWS, bind_call, inits_of, mentions, pat_idents, pattern_bodies, peel
 
 TECHNIQUE = ("grammar-level chain from the MIR of the parser crate: a level is a fn holding one repetition (nom many0 / fold_many0 whose argument type names the "
@@ -15,7 +16,9 @@ EXPLANATION = (
     "(so grouping within a level is iterative/left and a level never recurses into itself or a looser level); (R2) the operator classes per level, from "
     "loosest to tightest, are logic < comparison < add/sub < mul/div/mod + matrix < power < table < set, disjoint, and unary minus / not take a `factor` "
     "operand while postfix transpose wraps a factor; (R3) term() folds left: it iterates the rhs list forwards, passes (accumulator, rhs) in that order to "
-    "the operator and replaces the accumulator by the result; (R4) a parenthetical parses a full formula between the parentheses and evaluates it as a "
+    "the operator, replaces the accumulator by the result, and consumes EVERY (operator, operand) pair - the iteration has no exit other than exhaustion of the "
+    "list or error propagation (no break / value return / skipping continue / truncating adaptor / ControlFlow::Break), decided on the control-flow graph of "
+    "term() for loops and on the closure for fold / try_fold; (R4) a parenthetical parses a full formula between the parentheses and evaluates it as a "
     "unit. With C01-R3 (each operator kernel computes lhs OP rhs) the value of an unparenthesised formula equals its parenthesised rendering by construction."
 )
 
@@ -153,7 +156,7 @@ def analyse_level(B, cur):
 def run(F, rep, tier):
     rep.rule("C02-R1", "grammar chain from `formula`: each level is NEXT (OP NEXT)* with the same NEXT on both sides, 7 levels ending at `factor`")
     rep.rule("C02-R2", "operator classes per level in the documented order; classes disjoint; unary minus / not / transpose operate on a factor")
-    rep.rule("C02-R3", "term() is a forward left fold with (accumulator, rhs) argument order")
+    rep.rule("C02-R3", "term() is a forward left fold with (accumulator, rhs) argument order that consumes every (operator, operand) pair")
     rep.rule("C02-R4", "parentheses: parser wraps a full formula; interpreter evaluates the inner formula as a unit")
     cg = CallGraph(F, ["mech_syntax.lib", "mech_core.lib"])
     B = cg.bodies
@@ -237,7 +240,8 @@ def run(F, rep, tier):
     items = F.syn("mech_interpreter.lib")
     term = [it for it in items if it["k"] == "fn" and it["name"] == "term" and it["mod"].endswith("expressions")]
     if rep.check(len(term) == 1, "C02-R3", "anchor:term", "interpreter term() not found"):
-        check_term(rep, term[0], items)
+        tb = [b for b in F.bodies("mech_interpreter.lib") if b.fn.endswith("::expressions::term") and "{closure#" not in b.fn]
+        check_term(rep, term[0], items, tb[0] if len(tb) == 1 else None)
     fct = [it for it in items if it["k"] == "fn" and it["name"] == "factor" and it["mod"].endswith("expressions")]
     if rep.check(len(fct) == 1, "C02-R4", "anchor:interp-factor", "interpreter factor() not found"):
         rep.check(paren_evaluates_inner(fct[0]), "C02-R4", "interp:parenthetical-evaluates-inner", "Factor::Parenthetical is not evaluated by a single recursive factor() call on its inner formula")
@@ -273,7 +277,162 @@ def _unwrap_pat(p):
     return p
 
 
-def check_term(rep, it, items):
+LOOPS = ("for", "while", "loop")
+
+
+def exit_sites(stmts):
+    """control transfers in a loop body that concern THAT loop: yields (kind, node, enclosing statement list, index of the statement)
+    for `break` (without a value: a value-carrying break belongs to an inner `loop` / labelled block), `continue` - both not looked for
+    inside inner loops or closures - and `return` (looked for everywhere except closures)."""
+    out = []
+
+    def expr(e, ctx, inner):
+        if not isinstance(e, list):
+            return
+        if not is_node(e):
+            for x in e:
+                expr(x, ctx, inner)
+            return
+        t = e[0]
+        if t == "closure":
+            return
+        if t == "break":
+            if not inner and (len(e) < 2 or e[1] is None):
+                out.append(("break", e) + ctx)
+            if len(e) > 1:
+                expr(e[1], ctx, inner)
+            return
+        if t == "continue":
+            if not inner:
+                out.append(("continue", e) + ctx)
+            return
+        if t == "ret":
+            out.append(("return", e) + ctx)
+            expr(e[1], ctx, inner)
+            return
+        if t in ("block", "unsafe"):
+            block(e[1], inner)
+            return
+        if t == "if":
+            expr(e[1], ctx, inner)
+            block(e[2], inner)
+            expr(e[3], ctx, inner)
+            return
+        if t == "match":
+            expr(e[1], ctx, inner)
+            for arm in e[2]:
+                expr(arm[1], ctx, inner)
+                a = arm[2]
+                if is_node(a) and a[0] in ("block", "unsafe"):
+                    block(a[1], inner)
+                else:
+                    block([["expr", a, False]], inner)
+            return
+        if t == "for":
+            expr(e[2], ctx, inner)
+            block(e[3], True)
+            return
+        if t == "while":
+            expr(e[1], ctx, True)
+            block(e[2], True)
+            return
+        if t == "loop":
+            block(e[1], True)
+            return
+        for x in e[1:]:
+            expr(x, ctx, inner)
+
+    def block(stmts_, inner):
+        for i, st in enumerate(stmts_ or []):
+            if not is_node(st):
+                continue
+            if st[0] == "let":
+                expr(st[2], (stmts_, i), inner)
+                if len(st) > 3:
+                    expr(st[3], (stmts_, i), inner)
+            elif st[0] == "expr":
+                expr(st[1], (stmts_, i), inner)
+    block(stmts, False)
+    return out
+
+
+def mir_fold_exits(tb, acc_name):
+    """MIR view of `the fold consumes every (operator, operand) pair`: L = the CFG cycle of term() that evaluates operands (calls the
+    interpreter's factor()). (a) every edge leaving L starts at the switch on the discriminant of an `Iterator::next` result (the
+    iteration is exhausted) or leads to error returns only; (b) no path through L from one `next` to the following one avoids writing
+    the accumulator. Returns None when there is no such cycle (closure forms), else a list of problems (empty = holds)."""
+    fac = [i for i, t in tb.calls() if re.search(r"::expressions::factor$", callee(t))]
+    L = set()
+    for i in fac:
+        fwd = tb.reachable_from(tb.succ(i))
+        if i in fwd:
+            bwd, st = set(), [i]
+            while st:
+                x = st.pop()
+                if x not in bwd:
+                    bwd.add(x)
+                    st.extend(tb.pred(x))
+            L |= fwd & bwd
+    if not L:
+        return None
+    _reach = {}
+
+    def reach_from(d):
+        if d not in _reach:
+            _reach[d] = tb.reachable_from([d])
+        return _reach[d]
+    problems = []
+    # the loop's own iterator: the `next` call(s) every operand evaluation of the cycle is dominated by (not some other `.next()` in the body)
+    infac = [i for i in fac if i in L]
+    nexts = [(i, t) for i, t in tb.calls() if i in L and re.search(r"Iterator>::next$|::next$", callee(t)) and all(tb.dominates(i, f) for f in infac)]
+    allowed = set()
+    for i, t in nexts:
+        d = t["d"][0]
+        alias = {d}
+        for j in sorted(L):
+            blk = tb.blocks[j]
+            for st in blk["s"]:
+                if st.get("rk") in ("discr", "use") and st.get("src") and isinstance(st["src"][0], list) and st["src"][0][0] in alias and st["src"][0][1] == "":
+                    alias.add(st["d"][0])
+            tt = blk["t"]
+            if tt["k"] == "switch" and isinstance(tt.get("on"), list) and tt["on"][0] in alias:
+                allowed.add(j)
+    ok_blocks, _err = result_exits(tb)
+    rets = set(tb.ret_blocks())
+    for j in sorted(L):
+        for d in tb.succ(j):
+            if d in L or j in allowed:
+                continue
+            reach = reach_from(d)
+            if not (reach & rets):
+                continue        # diverges (unreachable / panic / todo!): not a way to finish the fold with a value
+            if reach & ok_blocks:
+                problems.append("the loop is left at line %s without the operand list being exhausted and not through an error return" % tb.blocks[j]["t"].get("l", "?"))
+            elif not any(tb.blocks[x]["t"]["k"] == "call" and callee(tb.blocks[x]["t"]).endswith("from_residual") and tb.blocks[x]["t"]["d"][0] == 0 for x in reach | {j}) \
+                    and not any(st["d"][0] == 0 and st.get("rk") == "agg" and st.get("var") == "Err" for x in reach | {j} for st in tb.blocks[x]["s"]):
+                # leaves the loop towards a return that is neither Ok(..) nor Err(..) / `?`: a value computed elsewhere (e.g. `return helper(..)`)
+                problems.append("the loop is left at line %s through a return whose value is not an error" % tb.blocks[j]["t"].get("l", "?"))
+    acc = tb.var_local(acc_name) if acc_name else None
+    if acc is not None and nexts:
+        writers = set()
+        for j in L:
+            blk = tb.blocks[j]
+            if any(st["d"][0] == acc and st["d"][1] == "" for st in blk["s"]) or (blk["t"]["k"] == "call" and blk["t"]["d"][0] == acc and blk["t"]["d"][1] == ""):
+                writers.add(j)
+        heads = {i for i, _ in nexts}
+        outside = set(range(len(tb.blocks))) - L
+        for h in heads:
+            if h in writers:
+                continue
+            starts = [x for x in tb.succ(h) if x in L]
+            seen = tb.reachable_from(starts, avoid=writers | outside)
+            if seen & heads:
+                problems.append("an iteration can reach the next one without replacing the accumulator: a (operator, operand) pair is skipped")
+                break
+    return problems
+
+
+def check_term(rep, it, items, tb=None):
     """left fold in term(): roles are identified by provenance (which component of the `&Term` parameter a value is computed from),
     by callee (`factor`, `.compile`, `.out`) and by position - never by the spelling of a local."""
     body = it["body"]
@@ -482,3 +641,65 @@ def check_term(rep, it, items):
         tail = lbody[-1]
         updated = tail[0] == "expr" and not (len(tail) > 2 and tail[2]) and from_out(tail[1])
     rep.check(updated, "C02-R3", "term:accumulator-updated", "the accumulator is not replaced by the operator's output each iteration")
+
+    # ---- the fold consumes EVERY (operator, operand) pair: the iteration over the rhs list has no exit other than error propagation,
+    # and no iteration is completed without applying its operator. (Adaptors that drop elements - take / take_while / skip / filter /
+    # step_by .. - are excluded by term:forward-iteration: the iterator must be the list itself.)
+    def is_error_value(e, depth=0):
+        y = peel(e)
+        if is_node(y) and y[0] == "call" and last_seg(path_of(y[1]) or "") == "Err":
+            return True
+        if is_node(y) and y[0] == "mcall" and is_error_value(y[1], depth):      # Err(..).map_err(..) / error builder chains on an Err
+            return True
+        p = path_of(y)
+        if p and p != acc and p not in params and depth < 2:
+            ins = inits_of(lbody, p)
+            return bool(ins) and all(is_error_value(i, depth + 1) for i in ins)
+        if is_node(y) and y[0] == "call" and depth < 2:
+            h, _pn = bind_call(items, y, it["mod"])
+            if h is not None and h["name"] != it["name"]:
+                # a helper all of whose results are errors (`return unhandled_operator(op, trm)`)
+                outs = [r[1] for r in find(h["body"], "ret")]
+                if h["body"] and h["body"][-1][0] == "expr" and not (len(h["body"][-1]) > 2 and h["body"][-1][2]):
+                    outs.append(h["body"][-1][1])
+                return bool(outs) and all(o is not None and is_error_value(o, depth + 1) for o in outs)
+        return False
+
+    def assigns_acc_before(stmts_, idx):
+        return any(is_node(st) and st[0] == "expr" and is_node(st[1]) and st[1][0] == "assign" and path_of(st[1][1]) == acc for st in stmts_[:idx])
+    syn_problems = []
+    for kind, node, stmts_, idx in exit_sites(lbody):
+        if fold_call is None:
+            if kind == "break":
+                syn_problems.append("`break` leaves the loop before the operand list is exhausted")
+            elif kind == "return" and not is_error_value(node[1]):
+                syn_problems.append("`return %s` leaves the loop with a value" % render(node[1])[:60])
+            elif kind == "continue" and not assigns_acc_before(stmts_, idx):
+                syn_problems.append("`continue` skips the application of the operator")
+        elif kind == "return" and not is_error_value(node[1]):
+            # closure form: `return v` hands v to the next iteration; handing on the unchanged accumulator skips the operator
+            v = peel(node[1])
+            while is_node(v) and v[0] == "call" and last_seg(path_of(v[1]) or "") in ("Ok", "Some", "Continue") and len(v[2]) == 1:
+                v = peel(v[2][0])
+            if path_of(v) == acc:
+                syn_problems.append("the closure returns the unchanged accumulator: the operator is not applied")
+    if fold_call is not None:
+        cl = fold_call[4][1]
+        if any(last_seg(pth[1]) == "Break" or "ControlFlow" in pth[1] for pth in find(cl, "path") if isinstance(pth[1], str)):
+            syn_problems.append("the fold closure can stop the iteration with ControlFlow::Break")
+        if fold_call[2] == "try_fold":
+            # the only early exit of try_fold is its Err/None/Break value: it must be propagated (`?` / returned), not turned into a result
+            propagated = any(t_[1] is fold_call for t_ in find(body, "try")) or any(r[1] is fold_call for r in find(body, "ret")) \
+                or (body and body[-1][0] == "expr" and body[-1][1] is fold_call)
+            if not propagated:
+                syn_problems.append("the early exit value of try_fold is not propagated as an error")
+    problems = syn_problems
+    if fold_call is None and tb is not None:
+        mp = mir_fold_exits(tb, acc)
+        if mp is not None:
+            # the control-flow graph decides for loops; the syntactic reading is kept as evidence when they disagree
+            if syn_problems and not mp:
+                rep.note("fold_exit_syntactic_only", syn_problems[:5])
+            problems = mp
+    rep.check(not problems, "C02-R3", "term:consumes-every-pair",
+              "term() does not fold over every (operator, operand) pair of the term: %s (the remaining pairs are dropped, so `a && b || c` no longer equals `(a && b) || c`)" % "; ".join(sorted(set(problems))[:4]))
